@@ -217,7 +217,10 @@ PROPS = {
                              "floating-point rounding (bounded)", "numpy scalar on the left of / % divmod: open finding"]),
     "C06": dict(level="other", contracts=["numpoly.derivative", "numpoly.gradient", "numpoly.hessian"],
                 explanation="derivative (real source) is proved for any number of terms and indeterminates, symbolic options, the variable "
-                "designated by position, by name or by an indeterminate polynomial, one or two successive variables: at the point "
+                "designated by position, by name or by an indeterminate polynomial (any stored polynomial with exactly one term of non-zero "
+                "coefficient, x_d**1 - further stored terms, the constant one included, may be all-zero), one or two successive variables "
+                "(name+name, position+name, position+position; a position designates the same indeterminate of the ARGUMENT in every step, "
+                "whatever the alignment in between does to the order of the names): at the point "
                 "where the differentiated attributes are handed to the constructor the obligations establish that they are EXACTLY "
                 "the terms involving the variable, each with the exponent of that variable lowered by one (unsigned 32-bit "
                 "arithmetic modelled with wrap-around: no wrap can occur) and the coefficient multiplied by the old exponent, or the "
@@ -407,7 +410,8 @@ PROPS = {
                     "(both compiled and numpy path, and the empty case). clean_attributes: cannot fail on a WF polynomial under any "
                     "option setting and keeps the abstract value. Regeneration: polynomial(todict()) and polynomial(raw structured view, "
                     "names) are proved to hand exactly the stored exponent rows (field names decoded with the KEY_OFFSET they were "
-                    "encoded with, every field, in field order) and coefficient columns to polynomial_from_attributes; equality of the "
+                    "encoded with, every field, in field order) and coefficient columns to polynomial_from_attributes, and a requested dtype "
+                    "reaches the constructor for every kind of input; equality of the "
                     "regenerated object under == and WF of the results of the whole public API: bounded run-time checks.",
         not_decided=["compose_polynomial_array (nested lists of polynomials), sympy input (bounded)",
                      "WF of the results of every public function (bounded catalogue)"],
